@@ -205,6 +205,16 @@ fn offer_all<B: Backend>(rec: &mut Recorder, items: &[Item]) -> u64 {
         let Some(body) = crate::b64::dec(body_txt) else { continue };
         for (dst_kind, hdr) in [("key.local", ".local."), ("key.public", ".public."), ("key.secret", ".secret."), ("key.pkepublic", ".public."), ("key.pkesecret", ".secret."),
                                 ("id.lid", ".lid."), ("id.pid", ".pid."), ("id.sid", ".sid."), ("id.pkepid", ".pid."), ("id.pkesid", ".sid.")] {
+          // the body as it is, and with its first / last byte zeroed (a sign byte, a padding byte: bytes a lenient decoder strips)
+          for variant in 0..3 {
+            let mut vb = body.clone();
+            match variant {
+                1 if !vb.is_empty() => vb[0] = 0,
+                2 if !vb.is_empty() => *vb.last_mut().unwrap() = 0,
+                0 => {}
+                _ => continue,
+            }
+            let body_txt = crate::b64::enc(&vb);
             let text = format!("{k}{hdr}{body_txt}");
             let r = match dst_kind {
                 "key.local" => try_parse::<Key<B::V, Local>>(&text),
@@ -218,8 +228,9 @@ fn offer_all<B: Backend>(rec: &mut Recorder, items: &[Item]) -> u64 {
                 "id.pkepid" => try_parse::<KeyId<B::V, PkePublic>>(&text),
                 _ => try_parse::<KeyId<B::V, PkeSecret>>(&text),
             };
-            rec.emit(json!({"fn":"xbody","src_be":it.be,"src_kind":it.kind,"dst_be":B::NAME,"dst_ver":B::VER,"dst_kind":dst_kind,"body_len":body.len(),"result":r,"ok":r == "ok"}));
+            rec.emit(json!({"fn":"xbody","src_be":it.be,"src_kind":it.kind,"dst_be":B::NAME,"dst_ver":B::VER,"dst_kind":dst_kind,"body_len":body.len(),"variant":variant,"result":r,"ok":r == "ok"}));
             n += 1;
+          }
         }
     }
     n
